@@ -220,6 +220,25 @@ func genC17(r *fw.Rng, tier string, emit func(fw.Case)) {
 		}
 		emit(fw.Case{Op: "rtpall", Args: []string{fw.Hex(s)}})
 	}
+	// payload-length fields near the top of the 16-bit range: header length + length does not fit 16 bits; truncated
+	// (must be "short") and complete, followed by a second packet
+	for _, dt := range []int{0, 3, 4, 7} {
+		for _, bl := range []int{65505, 65506, 65510, 65518, 65534, 65535} {
+			p := randRTP(r)
+			p.dt = dt
+			p.body = make([]byte, bl)
+			for i := 0; i < len(p.body); i += 97 {
+				p.body[i] = byte(i)
+			}
+			full := encodeRTP(p)
+			emit(fw.Case{Op: "rtp", Args: []string{fw.Hex(full[:len(full)-bl+20])}}) // truncated payload
+			if dt == 0 || tier == "thorough" {
+				q := randRTP(r)
+				q.body = []byte{1, 2, 3}
+				emit(fw.Case{Op: "rtpall", Args: []string{fw.Hex(append(append([]byte{}, full...), encodeRTP(q)...))}})
+			}
+		}
+	}
 	// one Packet object reused for a whole stream: video packets (time stamp and both intervals non-zero) followed by
 	// audio / transparent packets and back — nothing of an earlier packet may show in a later one
 	nr := 300
